@@ -90,7 +90,7 @@ ASSUMPTIONS = [
     "dask.dataframe is imported through the pyarrow import stub; to_parquet/read_parquet need the real pyarrow and are NOT decided",
 ]
 BUDGET = {"quick": 40, "thorough": 540}
-CASE_TIMEOUT = 60
+CASE_TIMEOUT = 240
 EXHAUSTIVE_SPACE = ("rd facet: 5 fixed files (LF with/without trailing newline, CRLF, quoted commas/quotes, header only) x "
                     "every blocksize from 1 to filesize+2 plus None and the default")
 LEVEL_NOTE = ("CSV half only: to_parquet/read_parquet need the real pyarrow, which is not installed in this sandbox and cannot "
@@ -128,6 +128,8 @@ PENDING = {
         "a data row equal to the header line is dropped when a block starts with it (pandas_read_text startswith guard; fix proposed)",
     "read_csv:data-row-starts-with-header-text&blocked:columns":
         "same guard: a first row of a block that merely starts with the header text becomes the header of that block",
+    "read_csv:data-row-starts-with-header-text&blocked:KeyError@dataframe/io/csv.py:_read_csv":
+        "same guard with include_path_column: the block's frame has the wrong column name and the column selection raises",
     "read_csv:all-files-zero-bytes&blocksize-set:ValueError@backends.py:wrapper":
         "zero-byte files (empty frame written with header=False) + any blocksize -> from_map gets no blocks and raises",
 }
@@ -415,6 +417,19 @@ def _row_starts_with_header(case):
         if hdr and any(ln.startswith(hdr) for ln in lines[1:] if ln):
             return True
     return False
+
+
+def _rt_row_starts_with_header(case):
+    """Same predicate for the round-trip facet, on the text pandas writes for the frame (header line vs data lines)."""
+    try:
+        if not case["header"]:
+            return False
+        pdf, _ = _rt_frame(case)
+        lines = pdf.to_csv(index=case["index"], header=True, date_format=DATE_FORMAT).encode("utf8").split(b"\n")
+        hdr = lines[0].rstrip()
+        return bool(hdr) and any(ln.startswith(hdr) for ln in lines[1:] if ln)
+    except Exception:  # noqa: BLE001
+        return False
 
 
 RD_FEATURES = ("hdrlike", "nlq", "include_path", "lt_kw", "infer", "crlf", "no-trailing-newline", "multi-file", "header-only-file",
@@ -759,8 +774,10 @@ def _label(facet, needed, symptom, message, small=None):
     if "All `iterables` must have a non-zero length" in message:
         # from_map got no blocks at all: every file is zero bytes long (empty frame written with header=False) and a blocksize is set
         return "read_csv:all-files-zero-bytes&blocksize-set:" + symptom
-    if facet == "rd" and "blocked" in needed and symptom in ("length", "columns", "values") and small is not None \
-            and _row_starts_with_header(small):
+    hdr_symptom = symptom in ("length", "columns", "values") or symptom == "KeyError@dataframe/io/csv.py:_read_csv"
+    if hdr_symptom and small is not None and (
+            (facet == "rd" and "blocked" in needed and _row_starts_with_header(small))
+            or (facet == "rt" and "read-blocked" in needed and _rt_row_starts_with_header(small))):
         # rows are lost / taken as a header only while some data row starts with the header text and a block starts there:
         # the header-detection heuristic of pandas_read_text (b.startswith(header.rstrip()))
         return "read_csv:data-row-starts-with-header-text&blocked:" + symptom
